@@ -266,6 +266,22 @@ func c16A(w *caseWriter, mode, targetsS, rawhex string) {
 	w.line("A", mode, targetsS, rawhex, view.String(), oracle, obs)
 }
 
+// rawElement: a target of type interface{} whose current value is the JSON string "RAW:<text>" stands, in the
+// Args.MarshalJSON cases, for an element of dynamic type json.RawMessage holding <text> (nil when empty).
+func rawElement(t target) (json.RawMessage, bool) {
+	if t.nil_ || t.t.k != 'a' || !strings.HasPrefix(t.cur, `"RAW:`) {
+		return nil, false
+	}
+	var s string
+	if json.Unmarshal([]byte(t.cur), &s) != nil {
+		return nil, false
+	}
+	if s = strings.TrimPrefix(s, "RAW:"); s == "" {
+		return nil, true
+	}
+	return json.RawMessage(s), true
+}
+
 func c16a(w *caseWriter, targetsS string) {
 	var ts []target
 	var args handler.Args
@@ -275,6 +291,18 @@ func c16a(w *caseWriter, targetsS string) {
 		for _, t := range ts {
 			if t.nil_ {
 				args = append(args, nil)
+				continue
+			}
+			if raw, ok := rawElement(t); ok {
+				// an element that IS a json.RawMessage (not a pointer to a variable): nil, well-formed, or not a
+				// JSON value at all; encoding/json writes null for nil, the compacted text, or refuses
+				args = append(args, raw)
+				b, err := json.Marshal(raw)
+				enc := "-"
+				if err == nil {
+					enc = hexf(string(b))
+				}
+				ents = append(ents, fmt.Sprintf("m|%s|%s|%s", t.t.String(), hexf(t.cur), enc))
 				continue
 			}
 			v := newVar(t)
@@ -589,6 +617,16 @@ func genArgsCases(w *caseWriter, r *rng, count int) {
 		}
 		tS := renderTargets(ts, false)
 		c16a(w, tS)
+		if c%3 == 0 {
+			// the same with elements that are json.RawMessage values spliced in at random positions
+			rs := append([]target{}, ts...)
+			for j, k := 0, 1+r.intn(2); j < k; j++ {
+				raw := target{t: parseType("a"), cur: quoteKey("RAW:" + pick(r, []string{"", "", "1", " [1, 2] ", `{"k":null}`, "1,2", "nul", `"s"`}))}
+				at := r.intn(len(rs) + 1)
+				rs = append(rs[:at], append([]target{raw}, rs[at:]...)...)
+			}
+			c16a(w, renderTargets(rs, false))
+		}
 		raws := []string{"", "null", "{}", "[]", "7", "[", `{"a":1}`}
 		for l := 0; l <= n+2; l++ {
 			if l < n-1 && l > 1 {
